@@ -3,6 +3,7 @@ package gov
 import (
 	"bytes"
 	"fmt"
+	"github.com/nspcc-dev/neo-go/pkg/core/transaction"
 	"math/big"
 
 	"github.com/nspcc-dev/neo-go/pkg/crypto/keys"
@@ -261,6 +262,18 @@ func (m *menv) cheque(payee util.Uint160, amount int64, authorised bool) {
 		s := m.w.Alpha()
 		if !authorised {
 			s = []world.SignerSpec{world.G(m.users[0])}
+			// or a part of the committee that is not the Alphabet's 2/3+1: the plain majority where the two differ, a
+			// single member of several, the Alphabet's multi-signature with a scope that does not reach the call (seeded
+			// change C19-12: the rule of the paying contracts' verify method used for the cheque)
+			switch k := b.Rng.IntN(4); {
+			case k == 0 && m.w.Majority.ScriptHash() != m.w.Alphabet.ScriptHash():
+				s = m.w.Major()
+				b.Hit("cheque-signed-by-the-committee-majority-only")
+			case k == 1 && m.w.Members[0].ScriptHash() != m.w.Alphabet.ScriptHash():
+				s = []world.SignerSpec{world.G(m.w.Members[0])}
+			case k == 2:
+				s = []world.SignerSpec{world.Scoped(m.w.Alphabet, transaction.None)}
+			}
 		}
 		last = m.w.Invoke(s, m.nfs, "cheque", id, payee, amount, []byte{9})
 		b.Tx(1)
